@@ -95,6 +95,11 @@ pub trait Property: Sync {
     /// one-time per-process preparation
     fn setup(&self) {}
     fn run(&self, bytes: &[u8], cfg: &RunCfg) -> Verdict;
+    /// run a case given in decoded (JSON) form: used to replay failures found by enumeration
+    /// (`extra`), for which no byte string exists
+    fn run_decoded(&self, _decoded: &Value, _cfg: &RunCfg) -> Option<Verdict> {
+        None
+    }
     /// the decoded case as JSON (used to describe a case whose run panicked)
     fn describe(&self, _bytes: &[u8]) -> Option<Value> {
         None
